@@ -93,7 +93,7 @@ def run_step(root, do_step, step, fault=None, config_path=None, pool_seed=0, tim
             try:
                 res = do_step(step, root)
                 outcome = {"ok": res}
-            except Exception as e:  # the system's own failure: part of the history
+            except (Exception, KeyboardInterrupt) as e:  # the system's own failure: part of the history
                 import traceback
                 tb = traceback.extract_tb(e.__traceback__)
                 where = [f"{os.path.basename(f.filename)}:{f.name}" for f in tb][-4:]
@@ -157,7 +157,7 @@ def place_fault(rng, events, eligible, kinds=("kill", "io_error", "torn")):
     op = lab.split(":", 1)[0]
     ks = [x for x in kinds if x not in ("torn", "corrupt") or op in ("write", "tofile") or (x == "torn" and op == "move" and _cross_dir(lab))]
     if op.startswith("enter") or op.startswith("exit"):
-        ks = [x for x in ks if x == "kill"] or ["kill"]
+        ks = [x for x in ks if x in ("kill", "interrupt")] or ["kill"]
     kind = rng.choice(ks) if ks else "kill"      # a write-only kind on a non-write event degrades to a kill there
     f = {"kind": kind, "at": k, "label": lab}
     if kind in ("torn", "corrupt"):
